@@ -157,12 +157,16 @@ class BaseNode(Node):
             value.convert(self.units_raw, env)
         self.set_value(value.value)
 
-    def raw_value(self):
+    def raw_value(self, slices=None):
         """ Return current value (after all modifications) in its raw form
+
+        :param list slices: List of tuples with slicing
         """
         if self.value is None:
             return self.value_raw
         value = self.value.value if isinstance(self.value, Type) else self.value
+        if slices:
+            value = self.slice_value(slices, value)
         if isinstance(value, (list, np.ndarray)):
             return json.dumps(np.array(value).tolist())
         elif isinstance(value, (bool, np.bool_)):
@@ -214,7 +218,12 @@ class BaseNode(Node):
         if isinstance(nodes, str):   # block import
             node.value_raw = nodes
         else:                        # node import
-            node.value_raw = nodes[0].raw_value()
+            if node.value_slice and nodes[0].keyword=='str' and not nodes[0].dimension:
+                # text is sliced directly; arrays are sliced when the host casts the value
+                node.value_raw = nodes[0].raw_value(node.value_slice)
+                node.value_slice = None
+            else:
+                node.value_raw = nodes[0].raw_value()
             if not node.units_raw:
                 node.units_raw = nodes[0].units_raw
         
